@@ -112,6 +112,9 @@ Inductive lact :=
 | LRelease (ch : nat)     (* Release of one subscription of ch (m.mtx region) *)
 | LAddPeer (p : nat)      (* AddPeerStream *)
 | LDropPeer (p : nat)     (* session goroutine exit: delete(m.peers) *)
+| LReplace (p : nat)      (* AddPeerStream for the tuple of an executing stream: the old session is cancelled and leaves
+                             m.peers, the new stream is pending; what the remote peer was told is keyed by the tuple
+                             and survives, so l_wire keeps the entries of p *)
 | LWake                   (* the loop takes the wake token *)
 | LPass.                  (* the loop body: initSet to every incSession, sweep, writes of subChanges *)
 
@@ -187,6 +190,11 @@ Definition lstep (s : lstate) (a : lact) : lstate :=
   | LAddPeer p =>
       if mem_nat p (l_all s) then s
       else LState (l_ch s) (l_pubbed s) (l_inc s ++ [p]) (l_started s) (p :: l_all s) (l_wire s) true (l_phase s)
+  | LReplace p =>
+      if mem_nat p (l_started s) then
+        LState (l_ch s) (l_pubbed s) (l_inc s ++ [p]) (filter (fun x => negb (Nat.eqb x p)) (l_started s)) (l_all s)
+               (l_wire s) true (l_phase s)
+      else s
   | LDropPeer p =>
       LState (l_ch s) (l_pubbed s) (l_inc s) (filter (fun x => negb (Nat.eqb x p)) (l_started s)) (l_all s)
              (l_wire s) (l_wake s) (l_phase s)
